@@ -200,7 +200,20 @@ func c15Specs(quick bool) []*SeqSpec {
 	if !quick {
 		d = 4
 	}
-	return []*SeqSpec{{Name: "value-register", Cfg: cfg, Alphabet: a, Depth: d, MaxStates: 300000}}
+	// requests that are answered only after the log write is acknowledged (require-ack flag): the deferred reply
+	// must carry the value from immediately before the operation as well
+	set0, appx, inc := vd(protocol.NewLockCommandDataSetString("v0")), vd(protocol.NewLockCommandDataAppendString("x")), vd(protocol.NewLockCommandDataIncrData(2))
+	ack := []SeqOp{
+		op(0, withData(L(0, 1, 1, 0, 9, 1, 3), set0)),
+		op(0, withData(L(0, 1, 1, 0, 9, 1, 3), appx)),
+		op(1, withTF(withData(L(0, 1, 2, 0, 9, 1, 0), appx), tfAck)),
+		op(1, withTF(withData(L(0, 1, 2, 0, 9, 1, 0), set0), tfAck)),
+		op(1, withTF(withData(L(0, 1, 2, 3, 9, 0, 0), appx), tfAck)), // exclusive request: queued, granted by the unlock below
+		op(1, withTF(withData(L(0, 1, 3, 0, 9, 1, 0), inc), tfAck)),
+		op(0, U(0, 1, 1)), op(1, U(0, 1, 2)), tick(500 * ms),
+	}
+	return []*SeqSpec{{Name: "value-register", Cfg: cfg, Alphabet: a, Depth: d, MaxStates: 300000},
+		{Name: "value-register-acked", Cfg: cfg, Alphabet: ack, Depth: d + 1, MaxStates: 300000}}
 }
 
 func init() {
